@@ -154,12 +154,18 @@ def run_batch_except(env, fail_at, max_workers, tape):
     frames = [sf.Frame.from_items((('a', env.array([vals[i]], 'int64')),), name=names[i]) for i in range(3)]
 
     def fn(f):
+        if not env.model and tape[0] and pooled[0]:
+            # real pool: the tape is turned into per-task delays so that earlier tasks COMPLETE after later ones
+            import time
+            time.sleep(0.05 * (2 - names.index(f.name)))
         if f.name == ('f%d' % fail_at):
             raise TaskError()
         return f * 3
+    pooled = [False]
 
     def run(mw):
         b = sf.Batch.from_frames(frames, max_workers=mw, use_threads=True)
+        pooled[0] = mw is not None
         return [[env.obs(k), env.obs(v.values.tolist())] for k, v in b.apply_except(fn, TaskError).items()]
     ref = [[names[i], [[vals[i] * 3]]] for i in range(3) if i != fail_at]
     return [run(max_workers), run(None)], [ref, ref]
@@ -168,7 +174,7 @@ def run_batch_except(env, fail_at, max_workers, tape):
 _add(Cond('batch_apply_except', [('fail_at', 'int'), ('max_workers', 'int')], body_batch_except, tape=4,
         ranges={'fail_at': (-1, 2), 'max_workers': (1, 2)},
         functions=['Batch._apply_pool_except', 'Batch.apply_except'],
-        bounds='Batch of 3 frames, failing task index -1..2, max_workers 1..3, completion order symbolic',
+        bounds='Batch of 3 frames, failing task index -1..2, max_workers 1..2, completion order symbolic (4 tape Booleans; on the real pool the tape becomes per-task delays that make earlier tasks complete later)',
         route='Batch.apply_except: the failing label is dropped, every other result stays paired with its own label', timeout=300))
 
 
